@@ -123,7 +123,11 @@ def regen_tables():
     p = run([sys.executable, os.path.join(HERE, 'gen_tables.py'), '--repo', REPO, '--json', jpath])
     if p.returncode != 0:
         return False, p.stderr.strip(), None
-    return True, p.stdout.strip(), json.load(open(jpath))
+    # part 2: pointwise kernels -> Generated/Kernels.lean + Props/KernelsBridge.lean
+    p2 = run([sys.executable, os.path.join(HERE, 'gen_kernels.py'), REPO])
+    if p2.returncode != 0:
+        return False, (p.stdout + " | " + p2.stderr).strip(), json.load(open(jpath))
+    return True, (p.stdout.strip() + " | " + p2.stdout.strip()), json.load(open(jpath))
 
 
 def lake_build(targets):
